@@ -337,7 +337,7 @@ def c_soft_priority(c, shape, k):
 
 # ---- C01-S: rand-set formation ----------------------------------------------------------------------------------------
 def rs_cases(tier, seed):
-    fields = ["a", "b", "c", "n"]
+    fields = ["a", "b", "c", "n", "l0", "l1"]        # l0 / l1: elements of a random list referenced by literal subscript
     stmts = [(x,) for x in fields] + [(x, y) for x in fields for y in fields if x != y]
     seqs = []
     for k in (1, 2, 3):
@@ -360,9 +360,10 @@ def rs_cases(tier, seed):
           ["vsc.model.rand_info_builder.RandInfoBuilder.build", "vsc.model.rand_info_builder.RandInfoBuilder.process_fieldref",
            "vsc.model.rand_info_builder.RandInfoBuilder.visit_constraint_stmt_enter",
            "vsc.model.rand_info_builder.RandInfoBuilder.visit_constraint_stmt_leave", "vsc.model.rand_set.RandSet.add_field",
+           "vsc.model.rand_info_builder.RandInfoBuilder.visit_expr_array_subscript",
            "vsc.model.rand_set.RandSet.add_constraint", "vsc.model.rand_set_node_builder.RandSetNodeBuilder.build"],
           rs_cases, kind="bounded", replay="none",
-          bound="statement sequences over 3 random fields and 1 non-random field: every sequence of 1..2 statements, 700 seeded "
+          bound="statement sequences over 3 random fields, 1 non-random field and 2 list elements referenced by literal subscript (hard, or the first one soft): every sequence of 1..2 statements, 700 seeded "
                 "sequences of 3 (thorough: all 4096 of length 3 plus 1500 of length 4); a statement mentions one field or an ordered "
                 "pair of fields (operand order matters for set merging); no values involved")
 def c_rand_sets(c, seqs):
@@ -376,6 +377,9 @@ def c_rand_sets(c, seqs):
     from vsc.model.bin_expr_type import BinExprType
     from vsc.model.rand_info_builder import RandInfoBuilder
     from vsc.model.rand_set_node_builder import RandSetNodeBuilder
+    from vsc.model.field_array_model import FieldArrayModel
+    from vsc.model.expr_array_subscript_model import ExprArraySubscriptModel
+    from vsc.model.constraint_soft_model import ConstraintSoftModel
     from pyvc.ghost_btor import GhostBoolector
     for seq in seqs:
         root = FieldCompositeModel("o", True)
@@ -383,13 +387,24 @@ def c_rand_sets(c, seqs):
         for nm in ("a", "b", "c"):
             F[nm] = root.add_field(FieldScalarModel(nm, 4, False, True))
         F["n"] = root.add_field(FieldScalarModel("n", 4, False, False))
+
+        class T:
+            width = 4
+        arr = root.add_field(FieldArrayModel("l", T(), True, None, 4, False, True, False))
+        F["l0"], F["l1"] = arr.add_field(), arr.add_field()
+
+        def ref(nm):
+            if nm in ("l0", "l1"):
+                return ExprArraySubscriptModel(ExprFieldRefModel(arr), ExprLiteralModel(int(nm[1]), False, 32))
+            return ExprFieldRefModel(F[nm])
         sts = []
-        for refs in seq:
+        soft_first = len(seq) >= 2 and (len(seq[0]) + len(seq[-1])) % 2 == 0      # about half the sequences start with a soft
+        for k, refs in enumerate(seq):
             if len(refs) == 1:
-                e = ExprBinModel(ExprFieldRefModel(F[refs[0]]), BinExprType.Lt, ExprLiteralModel(9, False, 4))
+                e = ExprBinModel(ref(refs[0]), BinExprType.Lt, ExprLiteralModel(9, False, 4))
             else:
-                e = ExprBinModel(ExprFieldRefModel(F[refs[0]]), BinExprType.Le, ExprFieldRefModel(F[refs[1]]))
-            sts.append(ConstraintExprModel(e))
+                e = ExprBinModel(ref(refs[0]), BinExprType.Le, ref(refs[1]))
+            sts.append(ConstraintSoftModel(e) if (k == 0 and soft_first) else ConstraintExprModel(e))
         root.add_constraint(ConstraintBlockModel("c", sts))
         root.set_used_rand(True, 0)
         tag = repr(seq)
@@ -399,29 +414,32 @@ def c_rand_sets(c, seqs):
             c.check("rand-set formation raises nothing", False, info="%s %s: %s" % (tag, type(e).__name__, e))
             continue
         sets = ri.randsets()
-        ok1 = all(sum(1 for rs in sets if any(x is st for x in rs.constraints())) == 1 for st in sts)
-        c.check("every top-level statement is in exactly one rand set", ok1, info=tag)
+
+        def holds(rs, st):
+            return any(x is st for x in rs.constraints()) or any(x is st for x in rs.soft_constraints())
+        ok1 = all(sum(1 for rs in sets if holds(rs, st)) == 1 for st in sts)
+        c.check("every top-level statement (hard or soft) is in exactly one rand set", ok1, info=tag)
         ok2 = True
         for st, refs in zip(sts, seq):
             for rs in sets:
-                if any(x is st for x in rs.constraints()):
+                if holds(rs, st):
                     ok2 = ok2 and all(F[r] in rs.all_fields() for r in refs)
         c.check("that set contains every field the statement mentions (random or not)", ok2, info=tag)
         allf = [f for rs in sets for f in rs.all_fields()]
         c.check("no field belongs to two rand sets", len(allf) == len(set(allf)), info=tag)
         mentioned = {F[r] for refs in seq for r in refs}
         c.check("fields no statement mentions are unconstrained, exactly once; mentioned fields are not",
-                sorted(f.name for f in ri.unconstrained()) == sorted(f.name for f in F.values() if f not in mentioned), info=tag)
+                sorted(f.name for f in ri.unconstrained() if f is not arr.size) == sorted(f.name for f in F.values() if f not in mentioned), info=tag)
         c.check("only used-random fields are solve targets", all(f.is_used_rand for rs in sets for f in rs.rand_fields())
                 and all((f in rs.rand_fields()) == f.is_used_rand for rs in sets for f in rs.all_fields()), info=tag)
         # every field of a set is built before any constraint of it is (RandSetNodeBuilder)
+        bt = GhostBoolector()                    # one solver instance per call, as in Randomizer.randomize
         for rs in sets:
-            bt = GhostBoolector()
             RandSetNodeBuilder(bt).build(rs)
             c.check("every field of a rand set has its solver node after the node builder ran", all(f.var is not None for f in rs.all_fields()),
                     info=tag)
-            for f in rs.all_fields():
-                f.dispose()
+        for f in F.values():
+            f.dispose()
 
 
 # ---- C08 / C07: which blocks are collected ----------------------------------------------------------------------------------
